@@ -50,7 +50,7 @@ fn decode(data: &[u8]) -> arbitrary::Result<Case> {
         headers.push((name, value));
     }
     let body = u.take_rest().to_vec();
-    Ok(Case { api, expect, reply: Reply::Response { status, headers, body } })
+    Ok(Case { api, expect, reply: Reply::Response { status, headers, body }, earlier: vec![] })
 }
 
 fuzz_target!(|data: &[u8]| {
